@@ -1,5 +1,6 @@
 import Rivaas.Proto
 import Rivaas.Spec.Presence
+import Rivaas.Lemmas.PresenceLeaf
 /-
 Driver for C05. Case line (strings hex-encoded, lists as `n item…`):
 
@@ -124,9 +125,12 @@ def encV : VObs → String
 /-- the model of the code as it is in the repository now -/
 def modelPresence (c : Case) : List Path := presence c.top
 def modelLeaves (pm : List Path) : List Path := leafPaths pm
-def modelValidate (c : Case) (pm : List Path) : VObs :=
+/-- `validatePartial pm rules o` unfolded one step (`Rivaas.C05.validatePartial_unfold`, by `rfl`) so
+    that the leaf list computed for the comparison is reused and the compiled code goes through the
+    `@[csimp]` implementation of `leafPaths` (`Lemmas/PresenceLeaf.lean`) -/
+def modelValidate (c : Case) (leaves : List Path) : VObs :=
   if c.full then .res (validateFull c.fullErrs c.opts)
-  else .res (validatePartial pm c.rules c.opts)
+  else .res (partialFrom mkErr leaves (ownTags c.rules) c.opts)
 
 /-- errors that ought to be reported, evaluated on the presence set the implementation reported -/
 def want (c : Case) (o : Obs) : List Want :=
@@ -148,7 +152,7 @@ def step (line : String) : String :=
     | some c, some o =>
       let mpm := modelPresence c
       let mlv := modelLeaves mpm
-      let mv := modelValidate c mpm
+      let mv := modelValidate c mlv
       -- `leak` and `det` are oracle bits about the implementation only; the model has no counterpart
       let mi := o.pm == mpm && o.leaves == mlv && decide (o.v = mv)
       let s := specOK c o
